@@ -24,7 +24,8 @@ type C06Params struct {
 	Panics  int      // how often the item panics in a row (0 = once); the same item is run again after the first panic
 	FullCh  bool     // the error reporting channel is full and nobody receives: reporting must not block the panicking item
 	Early   bool     // service worker only: it is started from the prep routine (before the module starts) and panics once the module is online
-	Mgmt    bool     // service worker only: module management is on, the module is disabled during the back-off and enabled again afterwards (no management pass in between)
+	Mgmt    bool     // service worker: module management is on, the module is disabled during the back-off and enabled again afterwards (no management pass in between); start/stop: the routine runs in a management pass (ManageModules), which must return the error
+	Sleep   bool     // service worker only: the module is in sleep mode when the worker panics; it must be restarted after the back-off all the same
 }
 
 func (p C06Params) Name() string {
@@ -40,6 +41,9 @@ func (p C06Params) Name() string {
 	}
 	if p.Early {
 		n += "/early"
+	}
+	if p.Sleep {
+		n += "/sleep"
 	}
 	return n
 }
@@ -151,6 +155,7 @@ func VerifC06(p C06Params) *vsched.Scenario {
 			}
 		}
 		SetErrorReportingChannel(reports)
+		SetStdErrReporting(false) // again, with the value already in effect: a no-op that must stay one
 		lifecycle := func(phase string) func() error {
 			if p.Kind != phase {
 				return nil
@@ -184,7 +189,9 @@ func VerifC06(p C06Params) *vsched.Scenario {
 		m.RegisterEvent("ev", true)
 		if p.Mgmt {
 			EnableModuleManagement(func(*Module) {})
-			m.Enable()
+			if p.Kind != "start" {
+				m.Enable()
+			}
 		}
 		// the panicking function: panics while armed, otherwise behaves (and may wait for cancellation)
 		waitWhenHealthy := p.Kind == "service-worker"
@@ -258,6 +265,32 @@ func VerifC06(p C06Params) *vsched.Scenario {
 				vsched.Explore(true)
 			}
 			err := Start()
+			if p.Mgmt && (p.Kind == "start" || p.Kind == "stop") {
+				// the routine runs in a management pass: the module is enabled (start) or disabled (stop) and
+				// ManageModules, the call that runs the routine, has to return the error
+				if err != nil {
+					verifFail("harness", "mgmt-start", "Start failed: %v", err)
+				}
+				if p.Kind == "start" {
+					m.Enable()
+				} else {
+					m.Disable()
+				}
+				merr := ManageModules()
+				if s.entered == 0 {
+					verifFail("harness", "not-entered", "the %s routine was not run by the management pass", p.Kind)
+				}
+				if merr == nil {
+					verifFail("lifecycle-panic-makes-call-return-error", "ManageModules/"+p.Kind, "ManageModules returned nil although the %s routine it ran panicked", p.Kind)
+				}
+				checkChannel()
+				_ = Shutdown()
+				vsched.Explore(false)
+				if m.Online() {
+					verifFail("module-can-still-be-stopped", p.Kind+"/mgmt", "module is online after Shutdown")
+				}
+				return
+			}
 			if p.Kind == "stop" && len(p.Healthy) > 0 && err == nil {
 				// healthy work that winds down when the module is stopped: the stop must still report the panic
 				for range p.Healthy {
@@ -294,6 +327,9 @@ func VerifC06(p C06Params) *vsched.Scenario {
 			return
 		}
 		SetMaxConcurrentMicroTasks(4)
+		if p.Sleep {
+			m.Sleep(true)
+		}
 		close(moduleOnline)
 		vsched.Quiesce()
 		st0 := GetStatus()
@@ -384,6 +420,10 @@ func VerifC06(p C06Params) *vsched.Scenario {
 			if s.entered == before && task != nil && round > 0 {
 				// the queue may legitimately stay occupied up to the execution-wait limit
 				vsched.Advance(maxExecutionWait + time.Second)
+			}
+			if s.entered == before && p.Kind == "service-worker" && round > 0 {
+				verifFail("service-worker-restarted", p.Kind, "the service worker function was entered %d time(s) after %d panic(s) and the back-off", s.entered, round)
+				return
 			}
 			if s.entered == before && !(p.Early && round == 0 && s.entered > 0) {
 				verifFail("harness", "not-entered", "the panicking %s was not entered in round %d", p.Kind, round)
